@@ -22,6 +22,13 @@ def specs(tier, seed):
                               ('schedule_b', (('run', 2), ('reset',), ('reinit',), ('newsolver',), ('run', 2))))))
     S.append(('twin', 'T3', (('control', ('arb', -1, 1)), ('schedule_a', R2),
                              ('schedule_b', (('run', 2), ('reset',), ('reinit',), ('run', 2))))))
+    # self-locking chain with a control active from the first instant: an arbitrary duty cycle per instant / a timer rule
+    # commanding -0.5 from t = 0. The motor's duty cycle BEFORE the run (the default 1) differs from the first one the
+    # control commands: reset() must give back the former, because the first lock test of a run reads it
+    S.append(('twin', 'T4', (('control', ('arb', -1, 1)), ('schedule_a', R2),
+                             ('schedule_b', (('run', 2), ('reset',), ('reinit',), ('run', 2))), ('tag', ':first_duty_arbitrary'))))
+    S.append(('twin', 'T4', (('control', ('const', ((0.0, 10.0, -0.5),))), ('schedule_a', R2),
+                             ('schedule_b', (('run', 2), ('reset',), ('reinit',), ('run', 2))), ('tag', ':first_duty_not_positive'))))
     # built-in timer rules (ConstantPWM) on a control object that is reused after the reset
     cp = ('const', ((0.0, 0.125, 0.5), (0.3, 1.0, -0.75)))
     for t in ('T3', 'T4'):
